@@ -277,6 +277,8 @@ impl TyGen {
             let bad = [
                 '\u{e9}', '\u{0}', '~', '\u{7f}', 'a', '*', '\u{20ac}', '/', ':', '!', '\u{1f}', '&', ';',
                 '<', '>', '@', '[', '`', '{', '\u{80}', '_', '"', '#', '$', '%',
+                // code points whose LOW OCTET looks like a legal character
+                '\u{100}', '\u{141}', '\u{130}', '\u{2041}', '\u{1f600}', '\u{10041}', '\u{220}',
             ];
             let cs = match what {
                 "ia5" => asn1rs::model::asn::Charset::Ia5,
@@ -530,19 +532,41 @@ impl Reader for TyGen {
             }
             self.violate_in = Some(0);
         }
+        // the values around every octet boundary of the two's complement / unsigned forms:
+        // +-2^(8k-1) and 2^(8k), each -2..+2
+        let around = |rng: &mut SplitMix, a: i128, b: i128| -> Option<i128> {
+            let mut c = Vec::new();
+            for k in 1..=8u32 {
+                for base in [1i128 << (8 * k - 1), -(1i128 << (8 * k - 1)), 1i128 << (8 * k), -(1i128 << (8 * k))] {
+                    for d in -2i128..=2 {
+                        let x = base + d;
+                        if x >= a && x <= b {
+                            c.push(x);
+                        }
+                    }
+                }
+            }
+            if c.is_empty() {
+                None
+            } else {
+                Some(c[rng.below(c.len() as u64) as usize])
+            }
+        };
         let v = if C::EXTENSIBLE && self.rng.chance(1, 3) {
             // anything the Rust type holds (out of root is allowed)
-            match self.rng.below(4) {
+            match self.rng.below(6) {
                 0 => tlo,
                 1 => thi,
                 2 => (hi + 1).min(thi),
+                3 | 4 => around(&mut self.rng, tlo, thi).unwrap_or(tlo),
                 _ => self.rng.range_i(tlo, thi),
             }
         } else {
-            match self.rng.below(6) {
+            match self.rng.below(7) {
                 0 => lo,
                 1 => hi,
                 2 => self.rng.range_i(lo, (lo + 300).min(hi)),
+                3 => around(&mut self.rng, lo, hi).unwrap_or(lo),
                 _ => self.rng.range_i(lo, hi),
             }
         };
